@@ -123,7 +123,7 @@ fn validator_bodies(cx: &mut Ctx) {
     };
     let model = crate::astmodel::load(&generic);
     let Some(va) = f.free_fns("validate_arguments").into_iter().next() else { return cx.anchor_missing(rule, "validate_arguments") };
-    let t = sm::tsc(&va.block);
+    let t = sm::tsx(&va.block);
     let arg_fields: Vec<String> = model.structs.get("Arguments").map(|s| s.fields.iter().filter(|f| f.reaches.iter().any(|r| r == "Arg" || r == "ArgWithDefault")).map(|f| f.name.clone()).collect()).unwrap_or_default();
     if arg_fields.len() != 5 {
         cx.fail(rule, &format!("{}/struct", rule), &generic.rel, &format!("Arguments has parameter-carrying fields {:?} (5 expected)", arg_fields));
@@ -156,7 +156,7 @@ fn validator_bodies(cx: &mut Ctx) {
         cx.fail(rule, &format!("{}/validate_arguments/exits", rule), &f.loc(va), "validate_arguments has unexpected exits");
     }
     let Some(vp) = f.free_fns("validate_pos_params").into_iter().next() else { return cx.anchor_missing(rule, "validate_pos_params") };
-    let t = sm::tsc(&vp.block);
+    let t = sm::tsx(&vp.block);
     let scan = "first_invalid=posonlyargs.iter().chain(args.iter()).skip_while(|arg|arg.default.is_none()).skip_while(|arg|arg.default.is_some()).next();";
     if t.contains("let(posonlyargs,args)=args;") && t.contains(scan) && t.matches(".skip_while(").count() == 2 {
         cx.ok(rule, "validate_pos_params: one scan over posonlyargs ++ args (no-default run, default run, nothing after)");
@@ -179,7 +179,7 @@ fn parse_args_rules(cx: &mut Ctx) {
         Err(e) => return cx.anchor_missing(rule, &e),
     };
     let Some(pa) = f.free_fns("parse_args").into_iter().next() else { return cx.anchor_missing(rule, "parse_args") };
-    let t = sm::tsc(&pa.block);
+    let t = sm::tsx(&pa.block);
     let checks: [(&str, &str, &str); 5] = [
         ("dup-keyword", "ifkeyword_names.contains(keyword_name){returnErr(LexicalError{error:LexicalErrorType::DuplicateKeywordArgumentError(keyword_name.to_string(),),location:start,});}", "a repeated keyword argument is rejected with DuplicateKeywordArgumentError at the keyword's start"),
         ("record-keyword", "keyword_names.insert(keyword_name.clone());", "every named keyword is inserted into keyword_names"),
@@ -201,7 +201,7 @@ fn parse_args_rules(cx: &mut Ctx) {
         cx.fail(rule, &format!("{}/order", rule), &f.loc(pa), "the duplicate test does not precede the insert");
     }
     match f.free_fns("is_starred").into_iter().next() {
-        Some(s) if sm::tsc(&s.block) == "{exp.is_starred_expr()}" => {}
+        Some(s) if sm::tsx(&s.block) == "{exp.is_starred_expr()}" => {}
         _ => cx.fail(rule, &format!("{}/is_starred", rule), &f.rel, "is_starred is not exp.is_starred_expr()"),
     }
 }
@@ -283,12 +283,12 @@ fn bracket_arms(cx: &mut Ctx) {
         }
     }
     match lr::lexer_method(&lx, "consume_normal") {
-        Some(f) if sm::tsc(&f.block).contains("ifself.nesting>0{returnErr(LexicalError{error:LexicalErrorType::Eof,location:tok_pos,});}") => cx.ok(rule, "end of input inside brackets => Err(Eof)"),
+        Some(f) if sm::tsx(&f.block).contains("ifself.nesting>0{returnErr(LexicalError{error:LexicalErrorType::Eof,location:tok_pos,});}") => cx.ok(rule, "end of input inside brackets => Err(Eof)"),
         Some(f) => cx.fail(rule, &format!("{}/eof", rule), &lx.loc(f), "end of input with open brackets is not reported as Err(Eof)"),
         None => cx.anchor_missing(rule, "consume_normal"),
     }
     // nesting is written nowhere else
-    let all = sm::tsc(&lx.file);
+    let all = sm::tsx(&lx.file);
     let writes = all.matches("self.nesting+=1").count() + all.matches("self.nesting-=1").count();
     if writes != 6 || all.matches("self.nesting=").count() != all.matches("self.nesting==").count() {
         cx.fail(rule, &format!("{}/writers", rule), &lx.rel, &format!("{} increments/decrements of nesting (6 expected) or a direct assignment exists", writes));
@@ -303,7 +303,7 @@ fn indentation_errors(cx: &mut Ctx) {
     match lx.method("IndentationLevel", "compare_strict") {
         None => cx.anchor_missing(rule, "IndentationLevel::compare_strict"),
         Some(m) => {
-            let t = sm::tsc(&m.block);
+            let t = sm::tsx(&m.block);
             let less = t.contains("Ordering::Less=>{ifself.spaces<=other.spaces{Ok(Ordering::Less)}else{Err(LexicalError{location,error:LexicalErrorType::TabError,})}}");
             let greater = t.contains("Ordering::Greater=>{ifself.spaces>=other.spaces{Ok(Ordering::Greater)}else{Err(LexicalError{location,error:LexicalErrorType::TabError,})}}");
             let equal = t.contains("Ordering::Equal=>Ok(self.spaces.cmp(&other.spaces)),");
@@ -318,7 +318,7 @@ fn indentation_errors(cx: &mut Ctx) {
     match lr::lexer_method(&lx, "handle_indentations") {
         None => cx.anchor_missing(rule, "handle_indentations"),
         Some(m) => {
-            let t = sm::tsc(&m.block);
+            let t = sm::tsx(&m.block);
             if t.matches("indentation_level.compare_strict(current_indentation,self.get_pos())?").count() == 2 {
                 cx.ok(rule, "both comparisons go through compare_strict(..)? (errors propagate)");
             } else {
@@ -333,7 +333,7 @@ fn indentation_errors(cx: &mut Ctx) {
         }
     }
     // Indentations::current is what is compared
-    let t = sm::tsc(&lx.file);
+    let t = sm::tsx(&lx.file);
     if t.matches("letcurrent_indentation=self.indentations.current();").count() == 2 {
         cx.ok(rule, "both comparisons are against indentations.current()");
     } else {
@@ -376,7 +376,7 @@ fn lexer_error_sites(cx: &mut Ctx) {
     match lr::lexer_method(&lx, "lex_string") {
         None => cx.anchor_missing(rule, "lex_string"),
         Some(f) => {
-            let t = sm::tsc(&f.block);
+            let t = sm::tsx(&f.block);
             let eol = t.contains("ifc=='\\n'&&!triple_quoted{returnErr(LexicalError{error:LexicalErrorType::OtherError(\"EOL while scanning string literal\".to_owned(),),location:self.get_pos(),});}");
             let eof = t.contains("None=>{returnErr(LexicalError{error:iftriple_quoted{LexicalErrorType::Eof}else{LexicalErrorType::StringError},location:self.get_pos(),});}");
             if eol {
@@ -399,7 +399,7 @@ fn numeric_shape(cx: &mut Ctx) {
     cx.floor(rule, 6);
     let Some(lx) = lr::load_lexer(cx, rule) else { return };
     let Some(f) = lr::lexer_method(&lx, "lex_normal_number") else { return cx.anchor_missing(rule, "lex_normal_number") };
-    let t = sm::tsc(&f.block);
+    let t = sm::tsx(&f.block);
     let err = "ifself.window[1]==Some('_'){returnErr(LexicalError{error:LexicalErrorType::OtherError(\"Invalid Syntax\".to_owned()),location:self.get_pos(),});}";
     // three occurrences, each immediately before the consuming push of the '.', 'e', sign
     let ctxs = [
@@ -420,12 +420,12 @@ fn numeric_shape(cx: &mut Ctx) {
         cx.fail(rule, &format!("{}/leading-zero", rule), &lx.loc(f), "the leading-zero check is missing or altered");
     }
     match lr::lexer_method(&lx, "lex_number_radix") {
-        Some(r) if sm::tsc(&r.block).contains("BigInt::from_str_radix(&value_text,radix).map_err(|e|LexicalError{error:LexicalErrorType::OtherError(format!(\"{e:?}\")),location:start_pos,})?") => cx.ok(rule, "radix literal: from_str_radix error (incl. empty digit run) mapped to a LexicalError at start_pos"),
+        Some(r) if sm::tsx(&r.block).contains("BigInt::from_str_radix(&value_text,radix).map_err(|e|LexicalError{error:LexicalErrorType::OtherError(format!(\"{e:?}\")),location:start_pos,})?") => cx.ok(rule, "radix literal: from_str_radix error (incl. empty digit run) mapped to a LexicalError at start_pos"),
         Some(r) => cx.fail(rule, &format!("{}/radix-error", rule), &lx.loc(r), "lex_number_radix does not map the big-integer parse error to a LexicalError at the literal's start"),
         None => cx.anchor_missing(rule, "lex_number_radix"),
     }
     match lr::lexer_method(&lx, "radix_run") {
-        Some(r) if sm::tsc(&r.block).contains("}elseifself.window[0]==Some('_')&&Lexer::<T>::is_digit_of_radix(self.window[1],radix){self.next_char();}else{break;}") => cx.ok(rule, "radix_run: `_` is consumed only when a digit of the radix follows"),
+        Some(r) if sm::tsx(&r.block).contains("}elseifself.window[0]==Some('_')&&Lexer::<T>::is_digit_of_radix(self.window[1],radix){self.next_char();}else{break;}") => cx.ok(rule, "radix_run: `_` is consumed only when a digit of the radix follows"),
         Some(r) => cx.fail(rule, &format!("{}/underscore", rule), &lx.loc(r), "radix_run consumes an underscore that is not followed by a digit of the radix"),
         None => cx.anchor_missing(rule, "radix_run"),
     }
@@ -440,7 +440,7 @@ fn string_rules(cx: &mut Ctx) {
         Err(e) => return cx.anchor_missing(rule, &e),
     };
     if let Some(ps) = s.free_fns("parse_strings").into_iter().next() {
-        let t = sm::tsc(&ps.block);
+        let t = sm::tsx(&ps.block);
         let p_mix = t.find("ifhas_bytes&&num_bytes<values.len(){returnErr(LexicalError{error:LexicalErrorType::OtherError(\"cannot mix bytes and nonbytes literals\".to_owned(),),location:initial_start,});}");
         let p_dec = t.find("parse_string(");
         let defs = t.contains("letnum_bytes=values.iter().filter(|(_,(_,kind,..),_)|kind.is_any_bytes()).count();lethas_bytes=num_bytes>0;");
@@ -476,7 +476,7 @@ fn string_rules(cx: &mut Ctx) {
         }
     }
     // f-string error kinds with a construction site
-    let whole = sm::tsc(&s.file);
+    let whole = sm::tsx(&s.file);
     let kinds = ["UnclosedLbrace", "InvalidExpression", "InvalidConversionFlag", "EmptyExpression", "MismatchedDelimiter", "ExpressionNestedTooDeeply", "SingleRbrace", "Unmatched", "UnterminatedString"];
     for k in kinds {
         let n = whole.matches(&format!("FStringError::new({}", k)).count();
@@ -509,12 +509,12 @@ fn error_kind_mapping(cx: &mut Ctx, g: &Grammar) {
         cx.fail(rule, &format!("{}/extern-indent", rule), "parser/src/python.lalrpop", &format!("the INDENT terminal is named {:?}; parser.rs compares with \"Indent\"", indent_name));
     }
     match p.method("ParseErrorType", "is_indentation_error") {
-        Some(m) if sm::tsc(&m.block) == "{matchself{ParseErrorType::Lexical(LexicalErrorType::IndentationError)=>true,ParseErrorType::UnrecognizedToken(token,expected)=>{*token==Tok::Indent||expected.clone()==Some(\"Indent\".to_owned())}_=>false,}}" => cx.ok(rule, "is_indentation_error: IndentationError | unexpected Indent | expected \"Indent\""),
+        Some(m) if sm::tsx(&m.block) == "{matchself{ParseErrorType::Lexical(LexicalErrorType::IndentationError)=>true,ParseErrorType::UnrecognizedToken(token,expected)=>{*token==Tok::Indent||expected.clone()==Some(\"Indent\".to_owned())}_=>false,}}" => cx.ok(rule, "is_indentation_error: IndentationError | unexpected Indent | expected \"Indent\""),
         Some(m) => cx.fail(rule, &format!("{}/is_indentation_error", rule), &p.loc(m), "is_indentation_error does not name exactly the indentation kinds"),
         None => cx.anchor_missing(rule, "is_indentation_error"),
     }
     match p.method("ParseErrorType", "is_tab_error") {
-        Some(m) if sm::tsc(&m.block) == "{matches!(self,ParseErrorType::Lexical(LexicalErrorType::TabError)|ParseErrorType::Lexical(LexicalErrorType::TabsAfterSpaces))}" => cx.ok(rule, "is_tab_error: TabError | TabsAfterSpaces"),
+        Some(m) if sm::tsx(&m.block) == "{matches!(self,ParseErrorType::Lexical(LexicalErrorType::TabError)|ParseErrorType::Lexical(LexicalErrorType::TabsAfterSpaces))}" => cx.ok(rule, "is_tab_error: TabError | TabsAfterSpaces"),
         Some(m) => cx.fail(rule, &format!("{}/is_tab_error", rule), &p.loc(m), "is_tab_error does not name exactly TabError and TabsAfterSpaces"),
         None => cx.anchor_missing(rule, "is_tab_error"),
     }
